@@ -94,8 +94,14 @@ def hostile_scaled_values(rng, signed, n_word, n_frac, n=6, ranges_outside=3, in
     m = 1 << n_word
     out = []
     for _ in range(n):
-        c = rng.choice(['code', 'code', 'quarter', 'quarter', 'tie', 'tie', 'bound', 'bound', 'outside', 'outside', 'modulus', 'zero', 'fine', 'ulp', 'ulp'])
-        if c == 'ulp':
+        c = rng.choice(['code', 'code', 'quarter', 'quarter', 'tie', 'tie', 'bound', 'bound', 'outside', 'outside', 'modulus', 'zero', 'fine', 'ulp', 'ulp', 'wide53'])
+        if c == 'wide53' and n_frac >= 2:
+            # a scaled value of 53 significant bits between 2^53 and 2^62, just below / above a power of two: far outside short words, so that
+            # saturation / wrap have to reduce a double whose neighbours are 2 .. 512 apart (float arithmetic on it loses the low bits)
+            e = rng.randint(54, min(61, 52 + n_frac))
+            j = rng.randint(1, 8)
+            x = F(rng.choice([1, -1]) * (((1 << e) - j * (1 << (e - 53))) if rng.random() < 0.6 else ((1 << e) + j * (1 << (e - 52)))))
+        elif c == 'ulp' or c == 'wide53':
             # a double a few ulps away from a representable value (or from a tie): direction contracts are decided here
             k = rng.choice([lo, hi, 0, rng.randint(lo, hi), rng.randint(lo, hi)])
             base = F(k) + rng.choice([0, 0, 0, F(1, 2)])
